@@ -157,6 +157,19 @@ def gen_history(rng, idx):
             inp = {"n": ein["n"], "dt": ein["dt"], "breaker": ein["breaker"], "comp": ein["comp"], "mech": mi["comp"],
                    "flags": {k: v for k, v in ein.items() if k not in ("n", "dt", "breaker", "comp")},
                    "mech_flags": {k: v for k, v in mi.items() if k not in ("n", "dt", "comp")}}
+        if kind != "mechanical" and shifted is None and inp["n"] != calcs[-1]["n"] and inp["n"] > 1 and rng.random() < 0.5:
+            # a later calculation of another length whose consumers are all constants held as one value, next to load-sharing storage /
+            # PTI/PTO units: the length of the series is then that of the status series alone - nothing the calculation before left
+            # in the objects may decide it (D89)
+            fl = inp.get("flags", inp)
+            fl["constants_single"] = True
+            for c in base["spec"]["electric"]:
+                d = inp["comp"][c["name"]]
+                if "load" in d:
+                    d["load"] = [d["load"][0]] * inp["n"]
+                if c["kind"] not in E.SOURCE_KINDS and "mode" in d and c["kind"] != "pti_pto":
+                    d["mode"] = [0.0] * inp["n"]
+            core.axis("later_calculation", "other length, consumers all constant")
         if kind != "mechanical" and inp["n"] == calcs[-1]["n"] and rng.random() < 0.6:
             inp["breaker_table_in_place"] = True           # same series length: the breaker table of the calculation before is updated in place
             if "flags" in inp:
